@@ -1666,4 +1666,115 @@ theorem SInv.view_quiescent {sys : Sys} {σ : Spec} (h : SInv sys σ) (hq : quie
       rw [this]
       simp only [mdGet, specRes, specStep, h2.2]
 
+/-! ### `NoEmbOverlap` read off the history: operations on one `emb:` key are disjoint in time -/
+
+structure OInv (sys : Sys) : Prop where
+  pendAfter : ∀ a ∈ sys.hist, ∀ (t : Nat) (th : Thread) (k : Key), sys.threads[t]? = some th →
+    th.midKey = some k → a.op.key? = some k → a.ret < th.inv
+  disjoint : sys.hist.Pairwise (fun a b => ∀ k, a.op.key? = some k → b.op.key? = some k →
+    k.cls = .emb → a.ret < b.inv)
+
+theorem OInv.step {sys : Sys} {lin : List OpRec} (ho : OInv sys) (hs : SInv sys (specOf lin))
+    (hh : HInv sys lin) (t : Nat) (hx : startsExclusive sys t = true) : OInv (step sys t) := by
+  rw [step_eq_stepOld hs.walOff]
+  cases hth : sys.threads[t]? with
+  | none =>
+    have : stepOld sys t = sys := by unfold stepOld; simp [hth]
+    rw [this]; exact ho
+  | some th =>
+    cases hops : th.ops with
+    | nil =>
+      have : stepOld sys t = sys := by unfold stepOld; simp [hth, hops]
+      rw [this]; exact ho
+    | cons op rest =>
+      have hret : ∀ a ∈ sys.hist, a.ret < sys.clock := fun a ha => (hh.times a (hh.hlin a ha)).2
+      -- no other thread is inside an operation on the key of `op`
+      have hoth : ∀ k, op.key? = some k → ∀ (j : Nat) (thj : Thread), sys.threads[j]? = some thj →
+          j ≠ t → thj.midKey ≠ some k := by
+        intro k hk j thj hj hne hm
+        by_cases hpc : th.pc = .start
+        · exact startsExclusive_spec hx hth hpc hops hk (hs.mid_emb hj hm) j thj hj hm
+        · exact hne (hs.excl j t thj th k hj hth hm (by rw [midKey_of_ne_start hpc hops, hk]))
+      cases hstep : stepOp sys.store op th.pc with
+      | mk s' out =>
+        cases out with
+        | cont pc' =>
+          rw [stepOld_cont hth hops hstep]
+          have hself : (afterCont sys t th op s' pc').threads[t]? =
+              some { th with pc := pc', inv := if th.pc = .start then sys.clock else th.inv } :=
+            getElem?_set_self' hth
+          constructor
+          · intro a ha j thj k hj hm hak
+            by_cases e : j = t
+            · subst e
+              rw [hself] at hj
+              cases hj
+              by_cases hpc : th.pc = .start
+              · simpa [hpc] using hret a ha
+              · simp only [hpc, if_false]
+                have hm' : th.midKey = some k := by
+                  obtain ⟨_, op0, rest0, ho0, hk0⟩ := midKey_some hm
+                  have ho0' : th.ops = op0 :: rest0 := ho0
+                  rw [midKey_of_ne_start hpc ho0', hk0]
+                exact ho.pendAfter a ha j th k hth hm' hak
+            · have hj' : sys.threads[j]? = some thj := by
+                have : (afterCont sys t th op s' pc').threads[j]? = sys.threads[j]? :=
+                  List.getElem?_set_ne (Ne.symm e)
+                rw [this] at hj; exact hj
+              exact ho.pendAfter a ha j thj k hj' hm hak
+          · exact ho.disjoint
+        | done r =>
+          rw [stepOld_done hth hops hstep]
+          have hself : (afterDone sys t th op rest s' r).threads[t]? =
+              some { ops := rest, pc := .start, idx := th.idx + 1, inv := 0 } :=
+            getElem?_set_self' hth
+          constructor
+          · intro a ha j thj k hj hm hak
+            by_cases e : j = t
+            · subst e
+              rw [hself] at hj
+              cases hj
+              simp [Thread.midKey] at hm
+            · have hj' : sys.threads[j]? = some thj := by
+                have : (afterDone sys t th op rest s' r).threads[j]? = sys.threads[j]? :=
+                  List.getElem?_set_ne (Ne.symm e)
+                rw [this] at hj; exact hj
+              have ha' : a ∈ sys.hist ++ [⟨t, th.idx, op, r, if th.pc = .start then sys.clock else th.inv, sys.clock⟩] := ha
+              simp only [List.mem_append, List.mem_singleton] at ha'
+              rcases ha' with ha' | ha'
+              · exact ho.pendAfter a ha' j thj k hj' hm hak
+              · subst ha'
+                exact absurd hm (hoth k hak j thj hj' e)
+          · show (sys.hist ++ [(⟨t, th.idx, op, r, if th.pc = .start then sys.clock else th.inv, sys.clock⟩ : OpRec)]).Pairwise _
+            refine List.pairwise_append.mpr ⟨ho.disjoint, by simp, ?_⟩
+            intro a ha b hb
+            simp only [List.mem_singleton] at hb
+            subst hb
+            intro k hak hbk _
+            by_cases hpc : th.pc = .start
+            · simpa [hpc] using hret a ha
+            · simp only [hpc, if_false]
+              exact ho.pendAfter a ha t th k hth (by rw [midKey_of_ne_start hpc hops]; exact hbk) hak
+
+theorem EInv.run_overlap {sys : Sys} (h : EInv sys) (ho : OInv sys) (sched : List Nat)
+    (hx : NoEmbOverlapFrom sys sched = true) : OInv (runFrom sys sched) := by
+  induction sched generalizing sys with
+  | nil => exact ho
+  | cons t rest ih =>
+    simp only [NoEmbOverlapFrom, Bool.and_eq_true] at hx
+    obtain ⟨lin, hs, hh⟩ := h
+    exact ih (EInv.step ⟨lin, hs, hh⟩ t hx.1) (ho.step hs hh t hx.1) hx.2
+
+theorem pairwise_or {α} {R : α → α → Prop} {l : List α} (h : l.Pairwise R) {a b : α} (ha : a ∈ l)
+    (hb : b ∈ l) (hne : a ≠ b) : R a b ∨ R b a := by
+  induction l with
+  | nil => cases ha
+  | cons x r ih =>
+    rw [List.pairwise_cons] at h
+    rcases List.mem_cons.mp ha with ea | ha' <;> rcases List.mem_cons.mp hb with eb | hb'
+    · exact absurd (ea.trans eb.symm) hne
+    · subst ea; exact Or.inl (h.1 b hb')
+    · subst eb; exact Or.inr (h.1 a ha')
+    · exact ih h.2 ha' hb'
+
 end Neumann.KV
